@@ -1,6 +1,7 @@
 import Marwood.Store.VectorOps
 /-!
-# `vm/compare.rs`: `eqv` and `equal`, and the predicates of `predicate.rs` that the prelude uses
+# `vm/compare.rs` (after the `fix:` commit 77f2b17): `eqv` and `equal`, and the predicates of
+`predicate.rs` that the prelude uses
 -/
 namespace Marwood.Store
 open Outcome
@@ -15,6 +16,7 @@ def eqvCells (s : Store) : VCell → VCell → Outcome Bool
   | .nil, .nil => .ok true
   | .pair a d, .pair a' d' => .ok (a == a' && d == d')     -- `left == right` on the cell contents
   | .char a, .char b => .ok (a == b)
+  | .sym a, .sym b => .ok (a == b)                         -- two symbol cells: by name (fix 77f2b17)
   | .str i, .str j => do                                   -- `Rc<RefCell<String>>: PartialEq` compares contents
     let a ← s.strGet i
     let b ← s.strGet j
@@ -53,7 +55,7 @@ def equal : Nat → Store → VCell → VCell → Outcome Bool
 def comparePair : Nat → Store → VCell → VCell → Outcome Bool
   | 0, _, _, _ => .diverge
   | f+1, s, l, r =>
-    if !l.isPair || !r.isPair then eqv s l r
+    if !l.isPair || !r.isPair then equal f s l r          -- structural on the final cdrs (fix 77f2b17)
     else do
       let lcar ← l.asCar
       let rcar ← r.asCar
